@@ -2215,6 +2215,7 @@ impl<'bump, T: 'bump> Vec<'bump, T> {
         Splice {
             drain: self.drain(range),
             replace_with: replace_with.into_iter(),
+            bump: PhantomData,
         }
     }
 }
@@ -2588,6 +2589,9 @@ impl<'a, 'bump, T> FusedIterator for Drain<'a, 'bump, T> {}
 pub struct Splice<'a, 'bump, I: Iterator + 'a + 'bump> {
     drain: Drain<'a, 'bump, I::Item>,
     replace_with: I,
+    // Dropping a `Splice` can grow the vector, i.e. allocate from its `Bump`,
+    // so unlike `Drain` it must not be `Send`/`Sync`: `&Bump` is neither.
+    bump: PhantomData<&'bump Bump>,
 }
 
 impl<'a, 'bump, I: Iterator> Iterator for Splice<'a, 'bump, I> {
